@@ -40,6 +40,21 @@ PROPS = {
         not_claimed=["TypeRefPatcher (compute_patches / resolve_definition / alias flattening / attribute accumulation / WHICH scope string is passed): closures, dyn, unsafe mutation - outside this technique",
                      "Scope::push_scope/pop_scope (byte-index String surgery + cfg(debug_assertions) closures)"],
     ),
+    "C04": dict(
+        units=["rules_simple"],
+        claim="The closure-free rule functions (real text) are verified against the rule statements of the property: each appends exactly one "
+              "error of ITS code per violation and nothing else (compact structs non-empty; compact types untagged - structs and enum fields; "
+              "underlying types integral and non-optional; no fields under an underlying type; checked enums non-empty; compact enums neither backed "
+              "nor unchecked; no alias of an optional type; tags within 0..2^31-1; return tuples of at least two), the primitive bounds table equals "
+              "[-2^(n-1), 2^(n-1)-1] / [0, 2^n-1], and validate_struct / validate_enum / validate_type_alias and the ValidatorVisitor dispatch REJECT every element violating one of these rules.",
+        trusted=["assumed accessors (fields(), enumerators(), span(), identifier(), kind(), is_tagged(), TypeRef<Primitive> deref): Container::contents is an iterator adapter; they return the targets in order",
+                 "Diagnostic builder methods set_span/add_note/set_scope (`mut self`): kind and level unchanged (signature-only stubs)",
+                 "the validators NOT under contract are assumed append-only: validate_attributes, validate_common_doc_comments, validate_members, validate_parameters, validate_operation, validate_dictionary, validate_inherited_identifiers, backing_type_bounds, enumerator_values_are_unique",
+                 "format! (native vstd spec), RangeInclusive::contains shim, WeakPtr::borrow, concrete_type accessor"],
+        not_claimed=["SUBSET of the rule catalogue: enumerator value range (backing_type_bounds::check_bounds), tagged-members-must-be-optional, tag and enumerator-value uniqueness, redefinition scan, stream parameter rules, dictionary key rules, inherited-operation shadowing, attribute rules, module-before-definitions (parse_file tail): closures / iterator adapters / sort_by_key / windows",
+                     "the completeness direction (a program satisfying all rules is accepted) needs the whole pipeline",
+                     "the join with C20 (every element is visited) is stated, not mechanised: per-element dispatch contracts only"],
+    ),
     "C06": dict(
         units=["preproc"],
         claim="Term::evaluate, Expression::evaluate, Conditional::evaluate and process_nodes (slicec/src/parsers/preprocessor/grammar.rs, "
@@ -151,6 +166,10 @@ NOT_APPLICABLE = {
 }
 
 MANIFEST_TEXT = {
+    "C04": dict(
+        level="Proof (Verus) for a stated SUBSET of the rule catalogue: 12 closure-free rule functions + the primitive bounds table are verified against rule predicates written from the property - `appended(old, new, n_rule(element), k_rule)`: exactly one diagnostic of the rule's own code per violation, nothing else touched; validate_struct/enum/type_alias and ValidatorVisitor::visit_struct/enum/type_alias reject every element violating one of them. Rules implemented with closures/adapters (value ranges, uniqueness, stream, dictionary keys, shadowing, attributes) are trusted and named in the evidence.",
+        design_ref="DESIGN.md section 7, C04", technique="Verus contracts on extracted real functions; loop invariants over prophetic iterator views; counting spec functions; sequencing lemmas",
+        note="Partial claim (stated): subset of rules, soundness direction per element. Assumed: element accessors, builder stubs, append-only contracts of the other validators."),
     "C17": dict(
         level="Proof (Verus) of the SELECTION LOGIC: remove_duplicate_file_paths == dedup (first occurrences, order kept; lemmas: no two equal, every input represented) with one DuplicateFile lint per dropped repeat, spelling preserved, in order; resolve_files_from builds its files, in order, from compiled_set = dedup(sources) ++ references not already present (so a file listed as source and reference is compiled once, as a source, with no lint for the cross-list repeat); each SliceFile keeps spelling and is_source. File-system behaviour is trusted.",
         design_ref="DESIGN.md section 7, C17", technique="Verus contracts on extracted real functions; loop invariants over prophetic iterator views (history ++ remaining); spec lemmas",
